@@ -10,7 +10,7 @@
    has not begun, dropped = values refused because the cancel flag was seen (source.c:205). *)
 From Coq Require Import ZArith Bool List.
 From Verif Require Import Word Conc Gen_consts Gen_fields Gen_dqstate Gen_srcdata DqFields SrcData SrcData_proofs.
-From Verif Require SrcLane SrcLane_proofs.
+From Verif Require SrcLane SrcLane_proofs SrcLaneR SrcLaneR_proofs.
 Import ListNotations.
 Local Open Scope Z_scope.
 
@@ -185,6 +185,32 @@ Theorem C15_lane_never_zero : forall c rb s, 0 <= rb < 2 -> SrcLane.reach c rb s
   (forall t o x, SrcLane.pcs s t = SrcLane.PW_call o x -> x <> 0 /\ SrcLane.latched s = x).
 Proof. exact SrcLane_proofs.never_zero. Qed.
 Print Assumptions C15_lane_never_zero.
+
+(* ------------------------------------------------------------------------------------------------------------------
+   the second tie of (B): every recorded round of the stress harness is replayed as a run of SrcLane.begin / SrcLane.gstep
+   (Model/SrcLaneR.v, lib/props/c15_replay.py).  The abstraction of each thread's recording into model actions and the
+   proposed global order are untrusted; the scheduler takes an action only if the model state holds the value the
+   implementation observed, the model step is enabled, and it produces the recorded words / program point / latched and
+   delivered value.  Whatever it is given, it only takes steps of the model: *)
+Theorem C15_replay_reach : forall c L w0 fuel w s qs ord done ok s' done' rest ok' qs',
+  SrcLaneR_proofs.reachw c w0 s -> SrcLaneR.sched c L fuel w s qs ord done ok = (s', done', rest, ok', qs') ->
+  SrcLaneR_proofs.reachw c w0 s'.
+Proof. exact SrcLaneR_proofs.sched_reach. Qed.
+Print Assumptions C15_replay_reach.
+(* a replay starts from the source at rest with the recorded word; such a state satisfies the invariant of (B), so every
+   state a replay passes through is a reachable state of the model that satisfies it *)
+Theorem C15_replay_sound : forall c w0 L fuel w qs ord s' done' rest ok' qs',
+  SrcLaneR.init_word_ok w0 = true ->
+  SrcLaneR.sched c L fuel w (SrcLaneR.init_from w0) qs ord 0 true = (s', done', rest, ok', qs') ->
+  SrcLaneR_proofs.reachw c w0 s' /\ SrcLane_proofs.Inv c s'.
+Proof. exact SrcLaneR_proofs.replay_sound. Qed.
+Print Assumptions C15_replay_sound.
+(* the boolean invariant the replay evaluates on every state (word fields, token / lock shape, the no-stranding and DIRTY
+   clauses, waker lists, data clauses, per-thread clauses for the threads of the round) is implied by the proved invariant *)
+Theorem C15_replay_invariant_is_the_proved_one : forall c L s,
+  SrcLane_proofs.Inv c s -> SrcLaneR_proofs.covers L s -> SrcLaneR.inv_b c L s = true.
+Proof. exact SrcLaneR_proofs.inv_b_true. Qed.
+Print Assumptions C15_replay_invariant_is_the_proved_one.
 
 (* non-vacuity: thread 7 merges 5 into an idle ADD source (its wakeup enqueues it); thread 9 drains: latches 5 and enters
    the handler; meanwhile thread 8 merges 3 (its wakeup finds the drain lock held and only sets DIRTY); the handler
